@@ -23,6 +23,7 @@ DynArray *sim_id_arr(DynArray *a) { return a; }
 DynArray *sim_id_farr(DynArray *a) { return a; }
 DynArray *sim_id_sarr(DynArray *a) { return a; }
 int64_t sim_void(int64_t x) { (void)x; return 0; }
+int64_t sim_mix2(const char *a, const char *b, int64_t n) { uint64_t h = 1469598103934665603ull ^ (uint64_t)n; for (const char *p = a; *p; p++) { h ^= (uint8_t)*p; h *= 1099511628211ull; } h ^= 0xff; for (const char *p = b; *p; p++) { h ^= (uint8_t)*p; h *= 1099511628211ull; } return (int64_t)(h & 0x7fffffffffffffffull); }
 int64_t sim_mix(int64_t a, const char *s, int64_t b, int64_t c) {
     uint64_t h = 1469598103934665603ull ^ (uint64_t)a;
     for (const char *p = s; *p; p++) { h ^= (uint8_t)*p; h *= 1099511628211ull; }
@@ -83,6 +84,7 @@ static const char *PRELUDE =
 "extern fn sim_id_sarr(a: array<string>) -> array<string>\n"
 "extern fn sim_mix(a: int, s: string, b: bool, c: int) -> int\n"
 "extern fn sim_void(a: int) -> void\n"
+"extern fn sim_mix2(a: string, b: string, n: int) -> int\n"
 "extern fn sim_mkstr(n: int) -> string\n"
 "extern fn sim_mkarr(n: int) -> array<int>\n"
 "extern fn strlen(s: string) -> int\n"
@@ -104,8 +106,8 @@ static const char *PRELUDE =
 "}\n";
 
 typedef struct Step { int kind; long a, b; } Step;
-enum { ST_INT = 0, ST_FLOAT, ST_BOOL, ST_STR, ST_STRLEN, ST_ARR, ST_FARR, ST_SARR, ST_MIX, ST_VOID, ST_MKSTR, ST_MKARR, ST_SQRT, ST_OPAQUE, ST_MIXF, ST_LOOP, ST_NKINDS };
-static const char *st_name[] = { "id_int", "id_float", "id_bool", "id_str", "strlen", "id_arr", "id_farr", "id_sarr", "mix", "void", "mkstr", "mkarr", "sqrt_pow", "opaque", "mixf", "loop" };
+enum { ST_INT = 0, ST_FLOAT, ST_BOOL, ST_STR, ST_STRLEN, ST_ARR, ST_FARR, ST_SARR, ST_MIX, ST_VOID, ST_MKSTR, ST_MKARR, ST_SQRT, ST_OPAQUE, ST_MIXF, ST_LOOP, ST_MIX2, ST_NKINDS };
+static const char *st_name[] = { "id_int", "id_float", "id_bool", "id_str", "strlen", "id_arr", "id_farr", "id_sarr", "mix", "void", "mkstr", "mkarr", "sqrt_pow", "opaque", "mixf", "loop", "mix2" };
 static const long STRLENS[] = { 0, 1, 2, 255, 256, 4095, 4096, 8100, 8185, 8186, 8187, 8188, 8190, 8192, 8195, 16384, 65536 };
 static const long RESLENS[] = { 0, 1, 4089, 4090, 4091, 4092, 4096, 8200, 65536, 1048570, 1048571, 1048572, 1048580, 2000000 };
 static const long ARRLENS[] = { 0, 1, 2, 100, 454, 455, 456, 1000, 20000, 116507, 116509, 200000 };
@@ -138,6 +140,7 @@ static void emit_step(Buf *b, int i, Step *s) {
         if (s->a > 0) buf_printf(b, "    (println (+ %s (sg (at r%d %ld))))\n", pre, i, s->a - 1);
         break;
     case ST_MIX: buf_printf(b, "    (println (+ %s (int_to_string (sim_mix %s (mk %ld 5) %s %ld))))\n", pre, INTS[s->a % NINTS], s->b, (s->a & 1) ? "true" : "false", s->a * 977); break;
+    case ST_MIX2: buf_printf(b, "    (println (+ %s (int_to_string (sim_mix2 (mk %ld 7) (mk %ld 11) %ld))))\n", pre, s->a, s->b, s->a + s->b); break;
     case ST_VOID: buf_printf(b, "    unsafe { (sim_void %ld) }\n    (println (+ %s \"void-ok\"))\n", s->a, pre); break;
     case ST_MKSTR: buf_printf(b, "    (println (+ %s (sg (sim_mkstr %ld))))\n", pre, s->a); break;
     case ST_MKARR:
@@ -173,10 +176,10 @@ static void gen_src(CPlan *P, Buf *src) {
 enum { FS_BEFORE_READY = 0, FS_AFTER_READY, FS_REQ_READ, FS_BEFORE_REPLY, FS_MID_REPLY, FS_EXEC_FAIL, FS_NSTEPS };
 static const char *fs_name[] = { "before_ready", "after_ready", "on_request_read", "before_reply", "mid_reply", "exec_fail" };
 enum { FK_EXIT0 = 0, FK_EXIT1, FK_KILL, FK_CLOSE_IN, FK_CLOSE_OUT, FK_SHORT_HDR, FK_BAD_VERSION, FK_BAD_TYPE, FK_OVERSIZE,
-       FK_SHORT_PAYLOAD, FK_UNDEC_STRLEN, FK_UNDEC_ARRCOUNT, FK_UNDEC_TAG, FK_UNDEC_STRLEN_WRAP, FK_UNDEC_NESTED, FK_UNDEC_DEEP, FK_NKINDS };
+       FK_SHORT_PAYLOAD, FK_UNDEC_STRLEN, FK_UNDEC_ARRCOUNT, FK_UNDEC_TAG, FK_UNDEC_STRLEN_WRAP, FK_UNDEC_NESTED, FK_UNDEC_DEEP, FK_ERR_FMT, FK_NKINDS };
 static const char *fk_name[] = { "exit0", "exit1", "sigkill", "close_stdin", "close_stdout", "short_header", "bad_version", "bad_type",
                                  "oversize_len", "short_payload", "undecodable_strlen", "undecodable_arrcount", "unknown_tag",
-                                 "undecodable_strlen_wrap", "undecodable_nested_array", "undecodable_deep_nesting" };
+                                 "undecodable_strlen_wrap", "undecodable_nested_array", "undecodable_deep_nesting", "error_reply_with_conversions" };
 typedef struct Cell { int step, kind; } Cell;
 static Cell cells[128]; static int ncells;
 static void cells_init(void) {
@@ -220,7 +223,7 @@ static void plan_gen(CPlan *P, uint64_t seed, const RunOpts *o) {
         { uint32_t q = sim_rndn(6); snprintf(P->prog, sizeof P->prog, "%s", q < 2 ? "copbig" : q == 2 ? "cophandle" : "copcalls"); } P->tok = (int)sim_rndn(8);
         /* only after a COMPLETE (if garbled) message: a peer that sends half a message and then stalls with the pipe
          * open cannot be told from a slow peer and is outside the property's fault list */
-        P->linger = ((c.kind >= FK_BAD_VERSION && c.kind != FK_SHORT_PAYLOAD && c.kind != FK_UNDEC_TAG) || c.kind == FK_CLOSE_IN || c.kind == FK_CLOSE_OUT) && sim_rndn(3) == 0;   /* a co-process that closes its pipes need not be dying: with linger it closes BOTH and stays alive (one pipe left open and unread would be the silent-stall case that is out of scope) */
+        P->linger = ((c.kind >= FK_BAD_VERSION && c.kind != FK_SHORT_PAYLOAD && c.kind != FK_UNDEC_TAG && c.kind != FK_ERR_FMT) || c.kind == FK_CLOSE_IN || c.kind == FK_CLOSE_OUT) && sim_rndn(3) == 0;   /* a co-process that closes its pipes need not be dying: with linger it closes BOTH and stays alive (one pipe left open and unread would be the silent-stall case that is out of scope) */
         return;
     }
     /* c15: a small pool of generated programs per tier so that compile cost is shared by many schedules */
@@ -239,7 +242,8 @@ static void plan_gen(CPlan *P, uint64_t seed, const RunOpts *o) {
         case ST_ARR: s->a = ARRLENS[sim_rndn(9)]; s->b = sim_rndn(100); break;
         case ST_FARR: s->a = ARRLENS[sim_rndn(8)]; break;
         case ST_SARR: s->a = ARRLENS[sim_rndn(8)]; s->b = sim_rndn(40); break;
-        case ST_MIX: s->a = sim_rndn(64); s->b = STRLENS[sim_rndn(7)]; break;
+        case ST_MIX: s->a = sim_rndn(64); s->b = STRLENS[sim_rndn(sizeof STRLENS / sizeof *STRLENS)]; break;
+        case ST_MIX2: { static const long L2[] = { 0, 1, 40, 4000, 4090, 4096, 5000, 8170, 8192, 20000, 65536 }; s->a = L2[sim_rndn(11)]; s->b = L2[sim_rndn(11)]; break; }
         case ST_VOID: s->a = sim_rndn(10); break;
         case ST_MKSTR: s->a = RESLENS[sim_rndn(sizeof RESLENS / sizeof *RESLENS)]; break;
         case ST_MKARR: s->a = ARRLENS[sim_rndn(sizeof ARRLENS / sizeof *ARRLENS)]; break;
@@ -420,7 +424,7 @@ static long c16_write_filter(SimProc *p, SimFile *f, const uint8_t *buf, size_t 
             buf_put(repl, h, sizeof h); buf_put(repl, pl, pn); free(pl);
             J.fired = true; cw_mode = 1;
             break; }
-        case FK_SHORT_PAYLOAD: case FK_UNDEC_STRLEN: case FK_UNDEC_ARRCOUNT: case FK_UNDEC_TAG: case FK_UNDEC_STRLEN_WRAP: case FK_UNDEC_NESTED: {
+        case FK_SHORT_PAYLOAD: case FK_UNDEC_STRLEN: case FK_UNDEC_ARRCOUNT: case FK_UNDEC_TAG: case FK_UNDEC_STRLEN_WRAP: case FK_UNDEC_NESTED: case FK_ERR_FMT: {
             /* replace the whole reply by a hand-made one; the cop's own payload is swallowed */
             uint8_t pl[40]; uint32_t pn = 0;
             h[1] = COP_MSG_FFI_RESULT;
@@ -431,6 +435,9 @@ static long c16_write_filter(SimProc *p, SimFile *f, const uint8_t *buf, size_t 
             else if (P->fkind == FK_UNDEC_NESTED) { /* array of 2 whose second element is an array announcing more elements than bytes left */
                 pl[0] = TAG_ARRAY; pl[1] = TAG_INT; uint32_t cn = 2; memcpy(pl + 2, &cn, 4); pl[6] = TAG_INT; memset(pl + 7, 2, 8);
                 pl[15] = TAG_ARRAY; pl[16] = TAG_STRING; uint32_t c2 = 0x00FFFFFFu; memcpy(pl + 17, &c2, 4); pl[21] = TAG_STRING; pn = 22; memcpy(h + 4, &pn, 4); J.fired = true; }
+            else if (P->fkind == FK_ERR_FMT) { /* a well-formed FFI_ERROR whose text (the callee's, i.e. the peer's) contains printf conversions */
+                static const char *T[] = { "%s%s%s%s%s%s%s%s%s%s%s%s", "disk 100% full: %s %s %n", "%1000000d%s%s%n%n" };
+                const char *t = T[P->fk % 3]; pn = (uint32_t)strlen(t); memcpy(pl, t, pn); h[1] = COP_MSG_FFI_ERROR; memcpy(h + 4, &pn, 4); J.fired = true; }
             else { pl[0] = 0xEE; memset(pl + 1, 0x41, 8); pn = 9; memcpy(h + 4, &pn, 4); J.fired = true; }
             buf_put(repl, h, sizeof h); buf_put(repl, pl, pn);
             cw_mode = 1;
@@ -500,7 +507,7 @@ static void run_c15(CPlan *P, uint64_t seed, Result *r) {
         if (what) {
             int st = first_diff_step(&ref->out, &out);
             Step *s = st >= 0 && st < P->nsteps ? &P->st[st] : NULL;
-            long sz = s ? (s->kind == ST_MIX ? s->b : s->a) : 0;
+            long sz = s ? (s->kind == ST_MIX ? s->b : s->kind == ST_MIX2 ? s->a + s->b : s->a) : 0;
             if (s && (s->kind == ST_ARR || s->kind == ST_FARR || s->kind == ST_MKARR)) sz *= 9;
             if (s && s->kind == ST_SARR) sz *= 30;
             res_violation(r, "C15", "mismatch:%s:%s:%s", what, s ? st_name[s->kind] : "none", s ? size_class(sz) : "-");
